@@ -114,7 +114,7 @@ void use_ctor_f(float s, float x, float y, float z, float w, int k, const vec2f 
   use(vec3f(p, z)); use(vec3fa(p, z)); use(vec4f(p, q)); use(vec4f(r, w)); use(vec4f(ra, w));    // from smaller shapes
   use(vec2f(pi)); use(vec3f(ri)); use(vec3f(ria)); use(vec3fa(ri)); use(vec3fa(ria)); use(vec4f(ui));  // element type conversion
   use(vec3f(ra)); use(vec3fa(r)); use(vec3f(rd));                                                // shape / alignment conversion
-  use(static_cast<vec2i>(p)); use(static_cast<vec3i>(r)); use(static_cast<vec3ia>(ra)); use(static_cast<vec4i>(u));  // explicit operator vec_t<OT,N>
+  use(p.operator vec2i()); use(r.operator vec3i()); use(ra.operator vec3ia()); use(u.operator vec4i());        // explicit operator vec_t<OT,N>
   vec3f viaconv = ra;                                                                             // operator vec_t<T,3>() of the padded shape
   use(viaconv);
 }
@@ -127,7 +127,7 @@ void use_ctor_i(int s, int x, int y, int z, int w, float k, const vec2i &p, cons
   use(vec3i(p, z)); use(vec3ia(p, z)); use(vec4i(p, q)); use(vec4i(r, w)); use(vec4i(ra, w));
   use(vec2i(pf)); use(vec3i(rf)); use(vec3i(rfa)); use(vec3ia(rf)); use(vec3ia(rfa)); use(vec4i(uf));
   use(vec3i(ra)); use(vec3ia(r)); use(vec3i(ruc));
-  use(static_cast<vec2f>(p)); use(static_cast<vec3f>(r)); use(static_cast<vec3fa>(ra)); use(static_cast<vec4f>(u));
+  use(p.operator vec2f()); use(r.operator vec3f()); use(ra.operator vec3fa()); use(u.operator vec4f());
   vec3i viaconv = ra;
   use(viaconv);
 }
